@@ -1,15 +1,16 @@
 \* generated by gensync.py - edit there
-SPECIFICATION Spec
+SPECIFICATION PSpec
 CONSTANTS
- Clients = {1, 2, 3}
+ Clients = {1, 2}
  Creators = {1}
  Subscribers = {2}
  OtherType = {}
  MaxOps = 1
- MaxSends = 5
+ MaxSends = 3
  MaxServes = 1
  MaxApplies = 1
  Faults = FALSE
+ Mutations = {"crossDuid", "crossCollection", "sameKeyOtherCollection", "resetOther", "resetOwn"}
 INVARIANT LogNoRepeats
 INVARIANT LogEndRecorded
 INVARIANT PerClientOrder
@@ -20,5 +21,6 @@ INVARIANT ClientCpWithinLog
 INVARIANT QuiescentAgreement
 INVARIANT OneDatatype
 PROPERTY CpMonotone
-VIEW StateView
+VIEW PStateView
+ACTION_CONSTRAINT EdgeDump
 CHECK_DEADLOCK FALSE
